@@ -166,11 +166,16 @@ class Bank(collections.namedtuple('Bank', 'provider, paths')):
             Registered provider.
         """
         LOGGER.debug('Getting provider of %s (%d search paths)', reference, len(self.paths))
-        if reference not in self.provider:
-            base = sorted(self.paths)  # deterministic search order (the set order depends on the string hashing)
-            paths = [*base, *reference.paths(base)]
-            while reference not in self.provider and paths:
-                paths.pop().load()
+        searched: set[Bank.Path] = set()
+        while reference not in self.provider:
+            # deterministic search order (the set order depends on the string hashing); the list is rebuilt after every
+            # import because a class discovered on the way may have registered further search paths
+            base = sorted(self.paths)
+            paths = [p for p in (*base, *reference.paths(base)) if p not in searched]
+            if not paths:
+                break
+            searched.add(paths[-1])
+            paths[-1].load()
         return self.provider[reference]
 
 
